@@ -35,25 +35,31 @@ structure AllP (G : GCtx) (n : Nat) : Prop where
   pgbs : PGBS G n
   pgl : PGL G n
 
-/-- **Every statement of the simulation holds at every fuel** (strong induction on the
-specification's fuel; recursion between functions is covered by the induction). -/
-theorem allP (G : GCtx) (hG : G.OK) : ∀ n, AllP G n := by
+/-- **Every statement of the simulation holds at every fuel, in every context** (strong induction
+on the specification's fuel; recursion between functions is covered by the induction, and so is
+the change of context — another handler stack — inside a `try` body). -/
+theorem allP' : ∀ n, ∀ (G : GCtx), G.OK → AllP G n := by
   intro n
   induction n using Nat.strongRecOn with
   | _ n ih =>
+    intro G hG
     cases n with
     | zero => exact ⟨pe_zero G, pargs_zero G, pcall_zero G, pgs_zero G, pgss_zero G, pgbs_zero G, pgl_zero G⟩
     | succ k =>
-      have hk := ih k (Nat.lt_succ_self k)
+      have hk := ih k (Nat.lt_succ_self k) G hG
       refine ⟨?_, ?_, ?_, ?_, ?_, ?_, ?_⟩
-      · exact pe_step G hG k (fun m hm => (ih m (by omega)).pe) (fun m hm => (ih m (by omega)).pargs)
-          (fun m hm => (ih m (by omega)).pcall)
+      · exact pe_step G hG k (fun m hm => (ih m (by omega) G hG).pe) (fun m hm => (ih m (by omega) G hG).pargs)
+          (fun m hm => (ih m (by omega) G hG).pcall)
       · exact pargs_step G k hk.pe hk.pargs
-      · exact pcall_step G hG k (fun m hm => (ih m (by omega)).pgss) (fun m hm => (ih m (by omega)).pe)
-      · exact pgs_step G hG k (fun m hm => (ih m (by omega)).pe) (fun m hm => (ih m (by omega)).pargs) hk.pgl
-          (fun m hm => (ih m (by omega)).pgbs)
+      · exact pcall_step G hG k (fun m hm => (ih m (by omega) G hG).pgss) (fun m hm => (ih m (by omega) G hG).pe)
+      · exact pgs_step G hG k (fun m hm => (ih m (by omega) G hG).pe) (fun m hm => (ih m (by omega) G hG).pargs) hk.pgl
+          (fun m hm => (ih m (by omega) G hG).pgbs)
+          (fun m hm hs => (ih m (by omega) (G.withH hs) (hG.withH hs)).pgbs)
+          (fun m hm => (ih m (by omega) G hG).pgss)
       · exact pgss_step G k hk.pgs hk.pgss
       · exact pgbs_step G k hk.pgss
       · exact pgl_step G k hk.pe hk.pgbs hk.pgl
+
+theorem allP (G : GCtx) (hG : G.OK) : ∀ n, AllP G n := fun n => allP' n G hG
 
 end HmsProofs.Sim
